@@ -21,11 +21,17 @@ CASES = [
     m("population step with transposed rate matrix", "C17-B", PP,
       "rho1 = pref*numpy.dot(self.KK.data,rho1)", "rho1 = pref*numpy.dot(rho1,self.KK.data)"),
     m("propagation matrix starts from zeros", "C17-C", PP, "            U0 = numpy.eye(N)", "            U0 = numpy.zeros((N,N))"),
-    m("spectral exponential with S and S^-1 swapped", "C17-C", PP,
-      "            expKd_step = numpy.dot(SS,numpy.dot(\n                    numpy.diag(numpy.exp(Kd*timeaxis.step)),S1))",
-      "            expKd_step = numpy.dot(S1,numpy.dot(\n                    numpy.diag(numpy.exp(Kd*timeaxis.step)),SS))"),
+    m("exponential by diagonalisation of the rate matrix (the repaired defect)", "C17-C", PP,
+      "            expKd_step = scipy.linalg.expm(self.KK*timeaxis.step)",
+      "            Kd, SS = numpy.linalg.eig(self.KK)\n            S1 = numpy.linalg.inv(SS)\n            expKd_step = numpy.dot(SS,numpy.dot(\n                    numpy.diag(numpy.exp(Kd*timeaxis.step)),S1))"),
     m("exponential uses the parent axis step", "C17-C", PP,
-      "numpy.diag(numpy.exp(Kd*timeaxis.step)),S1))", "numpy.diag(numpy.exp(Kd*self.timeAxis.step)),S1))"),
+      "            expKd_step = scipy.linalg.expm(self.KK*timeaxis.step)", "            expKd_step = scipy.linalg.expm(self.KK*self.timeAxis.step)"),
+    m("element-wise exponential instead of the matrix exponential", "C17-C", PP,
+      "            expKd_step = scipy.linalg.expm(self.KK*timeaxis.step)", "            expKd_step = numpy.exp(self.KK*timeaxis.step)"),
+    m("offset exponential of the transposed rate matrix", "C17-C", PP,
+      "                    expKd_dt = scipy.linalg.expm(self.KK*dt)", "                    expKd_dt = scipy.linalg.expm(self.KK.T*dt)"),
+    t("step written first in the exponent", PP,
+      "            expKd_step = scipy.linalg.expm(self.KK*timeaxis.step)", "            expKd_step = scipy.linalg.expm(timeaxis.step*self.KK)"),
     m("offset applied twice", "C17-C", PP,
       "                    U0 = numpy.dot(expKd_dt,U0)\n", "                    U0 = numpy.dot(expKd_dt,U0)\n                    U0 = numpy.dot(expKd_dt,U0)\n"),
     m("is_subset_of drops the end-point test", "C17-C", "quantarhei/core/valueaxis.py",
